@@ -1304,7 +1304,9 @@ class SymArray(_np.ndarray):
             if kk.shape != flat.shape[:kk.ndim]:
                 raise Unsupported("masked assignment with mismatched mask shape")
             if isinstance(val, _np.ndarray) and val.ndim > 0:
-                raise Unsupported("masked assignment of an array under a symbolic mask")
+                # shape of the right-hand side depends on the mask: decide the mask (fork) and assign normally
+                _np.ndarray.__setitem__(self, _conc_key(key), _objarr(val))
+                return
             for idx in _np.ndindex(kk.shape):
                 k = kk[idx]
                 old = flat[idx]
@@ -1314,6 +1316,18 @@ class SymArray(_np.ndarray):
                 else:
                     flat[idx] = _ite(k, val, old)
             return
+        k1 = key[0] if isinstance(key, tuple) and len(key) == 1 else key
+        if (self.ndim == 1 and isinstance(k1, SymArray) and k1.ndim == 1 and not (isinstance(val, _np.ndarray) and val.ndim > 0)
+                and any(isinstance(k, SymNum) for k in k1.view(_np.ndarray).flat)):
+            # a[symbolic integer indices] = scalar: merge instead of enumerating the index values
+            ks = [_z(k) for k in k1.view(_np.ndarray).flat]
+            n = self.shape[0]
+            if cur().decide(z3.And(*[z3.And(k >= 0, k < n) for k in ks])):
+                flat = self.view(_np.ndarray)
+                for p in range(n):
+                    hit = SymBool(z3.Or(*[k == p for k in ks]))
+                    flat[p] = _ite(hit, val, flat[p])
+                return
         if isinstance(val, _np.ndarray) and val.dtype != object:
             val = _objarr(val)
         elif isinstance(val, (bool, int, float)):
